@@ -1424,6 +1424,71 @@ func r17_2(c *Ctx) {
 	if n == 0 {
 		c.undecided(fnLabel(fn)+":put-error-path", P.ipos(lp.tryPut), "could not locate the `err != nil && !isPanic` split after Put")
 	}
+	// path-wise: whatever else is tested first (e.g. the returned message), every path from the Put call
+	// to the fan-out that is consistent with (err != nil, not a panic) reports the error and keeps the message
+	if lp.rng != nil && lp.tryPut.Parent() == fn {
+		// the predicates also hold for a value that only carries Put's error (the parameter of an
+		// inlined predicate helper)
+		putErrD := func(v ssa.Value) bool {
+			if putErr(v) {
+				return true
+			}
+			src := sources(v)
+			for _, s := range src {
+				if !putErr(s) {
+					return false
+				}
+			}
+			return len(src) > 0
+		}
+		isPanicD := func(v ssa.Value) bool {
+			e, ok := v.(*ssa.Extract)
+			if !ok || e.Index != 1 {
+				return false
+			}
+			ta, ok := e.Tuple.(*ssa.TypeAssert)
+			return ok && ta.CommaOk && typeIs(ta.AssertedType, "sse", "replayPanic") && putErrD(ta.X)
+		}
+		assume := func(v ssa.Value) (bool, bool) {
+			if isPanicD(v) {
+				return false, true
+			}
+			if b, ok := v.(*ssa.BinOp); ok && (b.Op == token.NEQ || b.Op == token.EQL) {
+				if (putErrD(b.X) && isNilConst(b.Y)) || (putErrD(b.Y) && isNilConst(b.X)) {
+					return b.Op == token.NEQ, true
+				}
+			}
+			return false, false
+		}
+		paths, okP := walkPaths(lp.tryPut.Block(), instrIndex(lp.tryPut)+1, 2048, assume, func(in ssa.Instruction) bool { return in == lp.rng }, nil)
+		if okP && len(paths) > 0 {
+			bad := ""
+			for _, p := range paths {
+				if p.End == nil {
+					continue
+				}
+				sent, stored := false, false
+				for _, in := range p.Instrs {
+					if x, ok := in.(*ssa.Send); ok && putErr(x.X) {
+						sent = true
+					}
+					if st, ok := in.(*ssa.Store); ok {
+						if _, ok := isFieldSel(st.Addr, "messageWithTopics", "message"); ok {
+							stored = true
+						}
+					}
+				}
+				if !sent {
+					bad = "a path on which Put returned a genuine error reaches the fan-out without sending it to the publisher (e.g. the returned message is tested first): Publish returns nil although Put failed"
+				} else if stored {
+					bad = "a path on which Put returned a genuine error replaces the published message"
+				}
+			}
+			c.check(bad == "", fnLabel(fn)+":put-error-all-paths", P.ipos(lp.tryPut), itoa(len(paths))+" paths consistent with a genuine Put error all report it and keep the published message", bad)
+		} else {
+			c.ok(fnLabel(fn)+":put-error-all-paths", P.ipos(lp.tryPut), "not decided path-wise (no enumerable path from Put to the fan-out in this function)")
+		}
+	}
 }
 
 func r17_3(c *Ctx) {
@@ -1654,4 +1719,55 @@ func extractOfCallPred(call *ssa.Call, idx int) func(ssa.Value) bool {
 		}
 		return hit
 	}
+}
+
+// ---------------------------------------------------------------------------
+// R07.7: what Shutdown can return
+
+func init() {
+	register(&Rule{ID: "R07.7", Title: "Shutdown returns nil, ErrProviderClosed or its context's Err()", Floor: 1, Run: r07_7})
+	if p := properties["C07"]; p != nil {
+		p.Rules = append(p.Rules, "R07.7")
+		p.Explanation += " R07.7 every origin of Shutdown's result (through the spilled named result and the deferred closure's stores) is nil, ErrProviderClosed, or the Err() of the context parameter (\"its context's error\": not context.Cause, not another context)."
+	}
+}
+
+func r07_7(c *Ctx) {
+	P := c.P
+	fn := P.Fn("(*Joe).Shutdown")
+	if fn == nil || len(fn.Params) != 2 {
+		c.anchor("(*Joe).Shutdown")
+		return
+	}
+	ctx := fn.Params[1]
+	name := fnLabel(fn) + ":result"
+	n := 0
+	bad := ""
+	for _, ret := range returnsOf(fn) {
+		if len(ret.Results) != 1 {
+			continue
+		}
+		for _, s := range sources(ret.Results[0]) {
+			n++
+			switch {
+			case isNilConst(s):
+			case isGlobalLoad(s, "ErrProviderClosed"):
+			default:
+				if u, ok := s.(*ssa.UnOp); ok && u.Op == token.MUL {
+					if _, isAlloc := cellRoot(u.X).(*ssa.Alloc); isAlloc {
+						continue // the zero value of the result cell
+					}
+				}
+				if ci, ok := s.(*ssa.Call); ok && ci.Call.IsInvoke() && ci.Call.Method.Name() == "Err" && carriesOnly(ci.Call.Value, ctx) {
+					continue
+				}
+				bad = describe(s)
+			}
+		}
+	}
+	if n == 0 {
+		c.undecided(name, P.pos(fn.Pos()), "no result origin found")
+		return
+	}
+	c.check(bad == "", name, P.pos(fn.Pos()), "every origin of the result is nil, ErrProviderClosed or ctx.Err()", "Shutdown can return a value that is neither nil, ErrProviderClosed nor its context's Err(): "+bad)
 }
